@@ -61,7 +61,7 @@ func (c *Ctx) moduleCallees(root *load.FuncInfo, samePkgOnly bool) []*load.FuncI
 func c03(c *Ctx) {
 	r := c.R
 	r.Explanation = "Structural completeness of IRCServer.Marshal/Unmarshal: every field of every replicated Go struct (closure of IRCServer's field types) is read by the writer and written by the reader, every exported field of every snapshot protobuf message is set by the writer and read by the reader, each Go field travels through a protobuf field that the reader maps back to the same Go field, converter calls come in listed inverse pairs, and the indexes rebuilt on load (nicks, serverSessions) are rebuilt under the guards used in live operation. Decides the shape of the codec, not behavioural equality of the loaded instance."
-	r.Rules = []string{"C03.K1 go-field coverage", "C03.K2 pb-field coverage", "C03.K3 correspondence + inverse converters", "C03.K4 index rebuild guards", "C03.K5 mode-array loops"}
+	r.Rules = []string{"C03.K1 go-field coverage", "C03.K2 pb-field coverage", "C03.K3 correspondence + inverse converters", "C03.K4 index rebuild guards", "C03.K5 mode-array loops", "C03.K8 error discipline of the snapshot codec"}
 	r.Assumptions = []string{"protobuf wire encoding itself is lossless for the generated types", "time values lie in the UnixNano range"}
 
 	marshal := c.MustFunc("ircserver.(*IRCServer).Marshal")
@@ -398,6 +398,11 @@ func c03(c *Ctx) {
 						"writer encodes "+name+" with "+t.w+" but the reader does not apply "+t.r)
 				}
 			}
+		}
+	}
+	for _, fi := range []*load.FuncInfo{marshal, unmarshal} {
+		if fi != nil && fi.Body() != nil {
+			c.errorDiscipline("C03.K8", fi, "a snapshot that could not be encoded / decoded is reported as good")
 		}
 	}
 	c.c03TimeCodec(marshal, unmarshal)
@@ -987,6 +992,94 @@ func (c *Ctx) c03ModeLoops(fns ...*load.FuncInfo) {
 		})
 	}
 	r.Floor("C03.K5", 2)
+	// K5b: a set of flags is written as the list of its TRUE members: in the writer, a letter / status number is appended to
+	// the list only on the edge where the flag it stands for is set
+	if len(fns) > 0 && fns[0] != nil && fns[0].Body() != nil {
+		fi := fns[0]
+		info := fi.Info()
+		g := c.Graph(fi)
+		nApp := 0
+		for _, v := range g.Nodes() {
+			as, ok := v.Node.(*ast.AssignStmt)
+			if !ok || len(as.Lhs) != 1 || len(as.Rhs) != 1 {
+				continue
+			}
+			app, ok := ast.Unparen(as.Rhs[0]).(*ast.CallExpr)
+			if !ok || astx.Builtin(info, app) != "append" || len(app.Args) != 2 {
+				continue
+			}
+			// string(<loop variable>) / string(rune(<loop variable>))
+			e := ast.Unparen(app.Args[1])
+			var lv types.Object
+			for k := 0; k < 3; k++ {
+				cc, ok := e.(*ast.CallExpr)
+				if !ok || !astx.IsConversion(info, cc) || len(cc.Args) != 1 {
+					break
+				}
+				e = ast.Unparen(cc.Args[0])
+			}
+			if id, ok := e.(*ast.Ident); ok && e != ast.Unparen(app.Args[1]) {
+				lv = astx.Obj(info, id)
+			}
+			if lv == nil {
+				continue
+			}
+			// the loop that declares lv: for lv := …  or  for lv, val := range <bool array>
+			var rangeVal types.Object
+			isLoopVar := false
+			ast.Inspect(fi.Body(), func(n ast.Node) bool {
+				switch x := n.(type) {
+				case *ast.ForStmt:
+					if ia, ok := x.Init.(*ast.AssignStmt); ok && len(ia.Lhs) == 1 {
+						if id, ok := ia.Lhs[0].(*ast.Ident); ok && info.Defs[id] == lv {
+							isLoopVar = true
+						}
+					}
+				case *ast.RangeStmt:
+					if id, ok := x.Key.(*ast.Ident); ok && x.Key != nil && info.Defs[id] == lv && info.Defs[id] != nil {
+						// only arrays / slices of flags (a map used as a set lists its keys, which are all members)
+						switch info.TypeOf(x.X).Underlying().(type) {
+						case *types.Array, *types.Slice, *types.Pointer:
+						default:
+							return true
+						}
+						if vid, ok := x.Value.(*ast.Ident); ok && x.Value != nil && info.Defs[vid] != nil {
+							if b, ok := info.Defs[vid].Type().Underlying().(*types.Basic); ok && b.Kind() == types.Bool {
+								isLoopVar = true
+								rangeVal = info.Defs[vid]
+							}
+						}
+					}
+				}
+				return true
+			})
+			if !isLoopVar {
+				continue
+			}
+			nApp++
+			okSet := false
+			for _, f := range g.FactsAt(v.ID) {
+				if f.Tag != nil || !f.Val {
+					continue
+				}
+				switch x := ast.Unparen(f.Expr).(type) {
+				case *ast.IndexExpr:
+					if id, ok := ast.Unparen(x.Index).(*ast.Ident); ok && astx.Obj(info, id) == lv {
+						okSet = true
+					}
+				case *ast.Ident:
+					if rangeVal != nil && astx.Obj(info, x) == rangeVal {
+						okSet = true
+					}
+				}
+			}
+			r.Check(okSet, "C03.K5", fi.Name(), "a flag is listed only when it is set", c.P.Pos(as.Pos()), "append dominated by <flags>[<loop variable>] (or the range value) being true",
+				"the writer lists a mode letter / member status on the edge where the flag is NOT set (test inverted): a restored session or channel has exactly the complementary modes — +i channels become open, operators lose their status and everybody else gains it")
+		}
+		if nApp < 3 {
+			r.Break("C03.K5: only %d flag-list appends found in the snapshot writer", nApp)
+		}
+	}
 }
 
 // keep flowx import used
